@@ -11,6 +11,7 @@ zone = {'vol': int, 'egroups': [e0 > e1 > ... ] (decreasing edges as Tripoli pri
         'integrated': {t_index_printed | None: (score, sigma%) | None (= not converged)}, 'used': int}
 """
 import functools
+import itertools
 import os
 
 SRC = '/repo/tests/eponine/tripoli4/data/entropy.d.res.ceav5'
@@ -29,24 +30,69 @@ def fmt(x):
     return f'{x:.6e}'
 
 
+def mesh_text(zone):
+    """'Results on a mesh' as printed in tungstene / cylindreDecR_with_kij_on_mesh."""
+    out = ['\t scoring mode : SCORE_TRACK', '\t scoring zone : \t Results on a mesh: ', '\t Cell   \t  tally   \t  sigma (percent)', '', '']
+    edges = zone['egroups']
+    groups = list(zip(edges[:-1], edges[1:]))
+    if zone['e_increasing_print']:
+        groups = [(lo, hi) for hi, lo in reversed(groups)]
+    ncell = zone['mesh']
+    order = list(itertools.product(range(ncell[0]), range(ncell[1]), range(ncell[2])))
+    for gind, (ea, eb) in enumerate(groups):
+        out.append(f'Energy range (in MeV): {fmt(ea)} - {fmt(eb)}')
+        for cell in order:
+            score, sigma = zone['cells'][('mesh', gind, cell)]
+            out.append(f'\t ({cell[0]},{cell[1]},{cell[2]})\t {fmt(score)}\t{fmt(sigma)}')
+        out.append('')
+    out += ['', 'ENERGY INTEGRATED RESULTS :']
+    for cell in order:
+        score, sigma = zone['cells'][('mesh', None, cell)]
+        out.append(f'\t ({cell[0]},{cell[1]},{cell[2]})\t {fmt(score)}\t{fmt(sigma)}')
+    integ = zone['integrated'][None]
+    out += ['', f'number of batches used: {zone["used"]}\t{fmt(integ[0])}\t{fmt(integ[1])}', '', '']
+    return out
+
+
 def zone_text(zone):
-    out = ['\t scoring mode : SCORE_TRACK', f'\t scoring zone : \t Volume \t num of volume : {zone["vol"]}',
-           '\t Volume in cm3: 1.000000e+00', '', '']
+    if zone.get('mesh'):
+        return mesh_text(zone)
+    if zone.get('mus'):
+        out = ['\t scoring mode : SCORE_SURF', f'\t scoring zone : \t Frontier \t volumes : {zone["vol"] + 1},{zone["vol"]}', '', '']
+    else:
+        out = ['\t scoring mode : SCORE_TRACK', f'\t scoring zone : \t Volume \t num of volume : {zone["vol"]}',
+               '\t Volume in cm3: 1.000000e+00', '', '']
     edges = zone['egroups']
     groups = list(zip(edges[:-1], edges[1:]))            # decreasing: (high, low)
     if zone['e_increasing_print']:
         groups = [(lo, hi) for hi, lo in reversed(groups)]
     tsteps = zone['tsteps'] or [None]
+    mus = zone.get('mus') or [None]
+    phis = zone.get('phis') or [None]
     for tind, tstep in enumerate(tsteps):
         tkey = None if tstep is None else tind
         if tstep is not None:
             out += [f'\t TIME STEP NUMBER : {tind}', '\t ------------------------------------',
                     f'\t\t time min. = {fmt(tstep[0])}', f'\t\t time max. = {fmt(tstep[1])}', '']
-        out += ['\t SPECTRUM RESULTS', '\t number of first discarded batches : 0', '',
-                '\t group (MeV) \t\t score   \t sigma_% \t score/lethargy', '']
-        for gind, (ea, eb) in enumerate(groups):
-            score, sigma = zone['cells'][(tkey, gind)]
-            out.append(f'{fmt(ea)} - {fmt(eb)}\t{fmt(score)}\t{fmt(sigma)}\t{fmt(score / 2)}')
+        for mind, mu in enumerate(mus):
+            mkey = None if mu is None else mind
+            if mu is not None:
+                out += [f'\t MU ANGULAR ZONE : {mind}', '\t ------------------------------------',
+                        f'\t\t mu min. = {fmt(mu[0])}', f'\t\t mu max. = {fmt(mu[1])}', '']
+            for pind, phi in enumerate(phis):
+                pkey = None if phi is None else pind
+                if phi is not None:
+                    out += [f'\t\t PHI ANGULAR ZONE : {pind}', '\t\t ------------------------------------',
+                            f'\t\t\t phi min. = {fmt(phi[0])}', f'\t\t\t phi max. = {fmt(phi[1])}', '']
+                out += ['\t SPECTRUM RESULTS', '\t number of first discarded batches : 0', '',
+                        '\t group (MeV) \t\t score   \t sigma_% \t score/lethargy', '']
+                for gind, (ea, eb) in enumerate(groups):
+                    score, sigma = zone['cells'][cell_key(tkey, mkey, pkey, gind)]
+                    out.append(f'{fmt(ea)} - {fmt(eb)}\t{fmt(score)}\t{fmt(sigma)}\t{fmt(score / 2)}')
+                if mu is not None:
+                    out += ['', '']
+        if zone.get('mus'):
+            continue                     # angular spectra are printed without an energy-integrated result (gauss_E_time_mu_phi)
         out += ['', '\t ENERGY INTEGRATED RESULTS', '', '\t number of first discarded batches : 0', '']
         integ = zone['integrated'][tkey]
         if integ is None:
@@ -55,6 +101,11 @@ def zone_text(zone):
             out += [f'number of batches used: {zone["used"]}\t{fmt(integ[0])}\t{fmt(integ[1])}', '']
         out.append('')
     return out
+
+
+def cell_key(tkey, mkey, pkey, gind):
+    """Cells are keyed (t, g) for plain spectra (as before) and (t, mu, phi, g) for angular ones."""
+    return (tkey, gind) if mkey is None else (tkey, mkey, pkey, gind)
 
 
 def response_text(resp):
@@ -109,22 +160,47 @@ def render(spec):
 
 
 # ------------------------------------------------------------------ ground-truth builders
-def make_zone(vol, base, negroups, e_inc, ntsteps, t_inc, values=('plain',), sigmas=(1.5,), converged=True, used=10):
+def make_zone(vol, base, negroups, e_inc, ntsteps, t_inc, values=('plain',), sigmas=(1.5,), converged=True, used=10, nmu=0, mu_inc=True,
+              nphi=0, phi_inc=True, mesh=None):
     """Unique values: base + 100*t + g (so that a swap cannot cancel); `values` cycles special values in."""
     edges = [2.0e1, 1.0, 1.0e-5, 1.0e-11][:negroups + 1]
     edges[-1] = 1.0e-11
+    if mesh:
+        cells = {}
+        k = 0
+        for gind in list(range(negroups)) + [None]:
+            for cell in itertools.product(range(mesh[0]), range(mesh[1]), range(mesh[2])):
+                kind = values[k % len(values)]
+                val = base + (50.0 if gind is None else gind) + 0.001 * (100 * cell[0] + 10 * cell[1] + cell[2]) + 0.25
+                val = {'neg': -val, 'zero': 0.0, 'small': val * 1e-3, 'big': val * 1e30}.get(kind, val)
+                cells[('mesh', gind, cell)] = (val, sigmas[k % len(sigmas)])
+                k += 1
+        return {'vol': vol, 'egroups': edges, 'e_increasing_print': e_inc, 'tsteps': None, 'cells': cells, 'mesh': tuple(mesh),
+                'integrated': {None: (base * 10 + 0.5, sigmas[k % len(sigmas)])}, 'used': used, 'mus': None, 'phis': None}
     tsteps = None
     if ntsteps:
         bounds = [0.0, 2.0, 3.0, 4.0, 1.0e35][:ntsteps] + [1.0e35]
         tsteps = list(zip(bounds[:-1], bounds[1:]))          # increasing
         if not t_inc:
             tsteps = tsteps[::-1]
+    mus = phis = None
+    if nmu:
+        mbounds = [-1.0, -0.5, 0.25, 1.0][:nmu] + [1.0]
+        mus = list(zip(mbounds[:-1], mbounds[1:]))
+        if not mu_inc:
+            mus = mus[::-1]
+        if nphi:
+            pbounds = [0.0, 2.0, 4.5, 6.283185][:nphi] + [6.283185]
+            phis = list(zip(pbounds[:-1], pbounds[1:]))
+            if not phi_inc:
+                phis = phis[::-1]
     cells, integ = {}, {}
     k = 0
     for tind in (range(len(tsteps)) if tsteps else [None]):
-        for gind in range(negroups):
+        for mind, pind, gind in itertools.product(range(len(mus)) if mus else [None], range(len(phis)) if phis else [None],
+                                                  range(negroups)):
             kind = values[k % len(values)]
-            val = base + 100.0 * (tind or 0) + gind + 0.25
+            val = base + 100.0 * (tind or 0) + 20.0 * (mind or 0) + 5.0 * (pind or 0) + gind + 0.25
             if kind == 'neg':
                 val = -val
             elif kind == 'zero':
@@ -133,11 +209,11 @@ def make_zone(vol, base, negroups, e_inc, ntsteps, t_inc, values=('plain',), sig
                 val = val * 1e-3
             elif kind == 'big':
                 val = val * 1e30
-            cells[(tind, gind)] = (val, sigmas[k % len(sigmas)])
+            cells[cell_key(tind, mind, pind, gind)] = (val, sigmas[k % len(sigmas)])
             k += 1
         integ[tind] = (base * 10 + (tind or 0) + 0.5, sigmas[k % len(sigmas)]) if converged else None
     return {'vol': vol, 'egroups': edges, 'e_increasing_print': e_inc, 'tsteps': tsteps, 'cells': cells,
-            'integrated': integ, 'used': used}
+            'integrated': integ, 'used': used, 'mus': mus, 'phis': phis}
 
 
 def make_keff(base, used=10, not_converged=False):
@@ -153,14 +229,15 @@ def make_keff(base, used=10, not_converged=False):
 
 
 def make_spec(neditions=1, nresp=1, nzones=1, negroups=2, e_inc=False, ntsteps=0, t_inc=True,
-              values=('plain',), sigmas=(1.5,), converged=True, keff=None):
+              values=('plain',), sigmas=(1.5,), converged=True, keff=None, nmu=0, mu_inc=True, nphi=0, phi_inc=True, mesh=None):
     editions = []
     for edi in range(neditions):
         resps = []
         for rind in range(nresp):
             func = ('FLUX', 'REACTION')[rind % 2]
             zones = [make_zone(1 + 2 * z, 1000.0 * (edi + 1) + 10000.0 * rind + 300.0 * z + 7, negroups, e_inc, ntsteps, t_inc,
-                               values, sigmas, converged, used=10 * (edi + 1)) for z in range(nzones)]
+                               values, sigmas, converged, used=10 * (edi + 1), nmu=nmu, mu_inc=mu_inc, nphi=nphi, phi_inc=phi_inc, mesh=mesh)
+                     for z in range(nzones)]
             resps.append({'function': func, 'name': f'resp{rind}', 'score_name': f'score{rind}', 'zones': zones})
         editions.append({'batch': 5 * (edi + 1), 'time': 12 * (edi + 1), 'responses': resps,
                          'keff': None if keff is None else make_keff(0.001 * edi, 10 * (edi + 1), keff == 'not_converged')})
